@@ -55,6 +55,22 @@ def represent(p, R, variant):
             return CovincularPatt(P, rows)
         if Rs == {(x, y) for x in cols for y in range(k + 1)} | {(x, y) for y in rows for x in range(k + 1)}:
             return BivincularPatt(P, cols, rows)
+    # the same mesh pattern object-wise built in different ways (the shading handed over as a list, as frozensets made in
+    # different orders, added cell by cell with shade() to a parent that was or was not used before)
+    how = (variant // 2) % 6
+    Rl = sorted(Rs)
+    if how == 1:
+        return MeshPatt(P, frozenset(Rl))
+    if how == 2:
+        return MeshPatt(P, frozenset(reversed(Rl)))
+    if how == 3:
+        return MeshPatt(P, Rl[: len(Rl) // 2]).shade(*Rl[len(Rl) // 2:])
+    if how == 4:
+        parent = MeshPatt(P, Rl[1:])
+        sorted([parent, MeshPatt(P, [])]), hash(parent), parent.contains(MeshPatt(Perm((0,)), []))
+        return parent.shade(Rl[0])
+    if how == 5:
+        return MeshPatt(P, frozenset(Rl[::2]) | frozenset(Rl[1::2]))
     return MeshPatt(P, R)
 
 
@@ -165,13 +181,14 @@ def run(ctx):
                 k = rnd.choice([1, 2, 2, 3])
                 p = rnd.choice(s[k])
                 el.append((p, tuple((x, y) for x in range(k + 1) for y in range(k + 1) if rnd.random() < rnd.choice([0.0, 0.2, 0.5]))))
-            objs = [represent(p, R, rnd.randint(0, 3)) for p, R in el]
+            objs = [represent(p, R, rnd.randint(0, 23)) for p, R in el]
             res = MeshBasis(*objs)
         events.append({"op": "Build", "elems": [{"p": list(p), "R": [list(c) for c in R]} for p, R in el],
                        "res": [{"p": list(okey(o)[0]), "R": [list(c) for c in okey(o)[1]]} for o in res]})
     nbase = len(events)
     forms_session(ctx, rnd, quick, events)
     routes_session(ctx, rnd, quick, events)
+    construction_events(ctx, rnd, quick, events)
     cold_start(ctx, rnd, quick, events)
     ctx.note("events_forms_and_routes", len(events) - nbase)
     # long session: many distinct classes, then the early ones are requested again
@@ -348,7 +365,7 @@ def forms_session(ctx, rnd, quick, events):
                 if rnd.random() < 0.3 and k < 4:
                     el.append((grow(rnd, p), ()))
             rnd.shuffle(el)
-            objs = [represent(p, R, rnd.randint(0, 3)) for p, R in el]
+            objs = [represent(p, R, rnd.randint(0, 23)) for p, R in el]
             if not any(isinstance(o, MeshPatt) for o in objs):
                 objs[0] = MeshPatt(objs[0], [])
             forms = [("MeshBasis(*gen)", lambda: MeshBasis(*(o for o in objs))),
@@ -409,6 +426,39 @@ def forms_session(ctx, rnd, quick, events):
     ctx.note("container_forms_exercised", len(nforms))
 
 
+def construction_events(ctx, rnd, quick, events):
+    """Bases with two or three patterns on the SAME underlying permutation and equally many shaded cells (only the order of
+    the cells could tell them apart in a sort key), the patterns built in every way represent() knows: the bases must be
+    equal, hash alike and denote one class object whatever way their elements were built."""
+    for it in range(60 if quick else 600):
+        k = rnd.choice([1, 1, 2])
+        p = util.rand_perm(rnd, k)
+        cells = [(x, y) for x in range(k + 1) for y in range(k + 1)]
+        size = rnd.randint(2, min(4, len(cells) - 1))
+        shadings = []
+        while len(shadings) < rnd.choice([2, 2, 3]):
+            R = tuple(sorted(rnd.sample(cells, size)))
+            if R not in shadings:
+                shadings.append(R)
+        jel_ = [jel(p, R) for R in shadings]
+        ref = None
+        for v in (0, 2, 4, 6, 8, 10):
+            objs = [represent(p, R, v + 12 * i) for i, R in enumerate(shadings)]
+            if v % 4 == 2:
+                objs.reverse()
+            st, B = util.call(lambda: MeshBasis(*objs))
+            if st == "raise":
+                ctx.violation({"kind": "trace-form", "form": "MeshBasis of differently built equal patterns", "elems": jel_}, "ConstructionSucceeds", "a basis", B)
+                continue
+            events.append({"op": "Build", "elems": jel_, "res": jres(B)})
+            if ref is None:
+                ref = (B, Av(B))
+                continue
+            events.append({"op": "Canon", "a": jel_, "b": jel_, "eq": bool(B == ref[0] and not B != ref[0]), "heq": hash(B) == hash(ref[0])})
+            events.append({"op": "Ident", "a": jel_, "b": jel_, "same": Av(B) is ref[1]})
+    Av.clear_cache()
+
+
 def routes_session(ctx, rnd, quick, events):
     """History lens: one process, several epochs separated by clear_cache(); inside an epoch every route to a class
     (Av(Basis), Av(list), Av(generator), Av.from_iterable, Av.from_string 0-/1-based, mesh presentations with
@@ -438,8 +488,9 @@ def routes_session(ctx, rnd, quick, events):
                     rows = [y for y in range(k + 1) if rnd.random() < 0.2]
                     el.append((p, tuple(sorted({(x, y) for x in cols for y in range(k + 1)} | {(x, y) for y in rows for x in range(k + 1)}))))
                 mk = lambda v: [represent(p, R, v + i) if R else MeshPatt(Perm(p), []) for i, (p, R) in enumerate(el)]
-                routes = [lambda: Av(MeshBasis(*mk(0))), lambda: Av(mk(1)), lambda: Av(o for o in reversed(mk(2))),
-                          lambda: Av.from_iterable(set(mk(3))), lambda: Av(MeshBasis.from_iterable(iter(mk(1) + mk(0))))]
+                routes = [lambda: Av(MeshBasis(*mk(0))), lambda: Av(mk(5)), lambda: Av(o for o in reversed(mk(2))),
+                          lambda: Av.from_iterable(set(mk(8))), lambda: Av(MeshBasis.from_iterable(iter(mk(10) + mk(4)))),
+                          lambda: Av(MeshBasis(*mk(6)))]
             rnd.shuffle(routes)
             jel_ = [jel(p, R) for p, R in el]
             st, first = util.call(routes[0])
